@@ -1,0 +1,17 @@
+//go:build verif
+
+package document
+
+// Raw-XML substitution (property C01: "nothing the caller can pass as template data makes the output
+// unreadable"; C18: "escaped where it lands in raw XML"). Header and footer parts are rewritten as TEXT:
+// regexp.ReplaceAllStringFunc replaces every match of {{name}} by the result of the function literal below.
+// The literal is under contract itself (captured variables te and data are nameable): whatever it returns
+// is either the match unchanged (no data for the name: the placeholder stays visible) or a string that went
+// through the whole escaping chain xmlEsc. Trusted: that the chain escapes (semantics of strings.ReplaceAll),
+// and that ReplaceAllStringFunc inserts the literal's result verbatim (documented).
+
+//@ func (*TemplateEngine).replaceVariablesInXMLPart$1
+//@ props C01, C18
+//@ requires te != nil && data != nil
+//@ modifies nothing
+//@ ensures result == match || (exists v string :: result == xmlEsc(v))
